@@ -73,6 +73,9 @@ type State struct {
 	epoch  int  // bumped by every havoc-all, so untouched heap keys are fresh afterwards
 	suffix string // "'" in the second run of a self-composition: names of untouched heap keys
 	tainted bool  // some memory that can hold references has been forgotten (havoc) on this path
+	known  []string // references returned by calls on this path (exist, may alias)
+	inGroup bool   // inside one effect: locations forgotten share groupFr
+	groupFr string
 	frontier string // lower bound of every reference existing now ("" = 0); see engine.go
 }
 
@@ -93,6 +96,7 @@ func (s *State) clone() *State {
 		suffix: s.suffix,
 		tainted: s.tainted,
 		frontier: s.frontier,
+		known: append([]string(nil), s.known...),
 	}
 	for k, v := range s.vars {
 		n.vars[k] = v
@@ -228,6 +232,14 @@ func mergeStates(cond string, a, b *State, nBase int) *State {
 		if !seen[x] {
 			seen[x] = true
 			r.allocs = append(r.allocs, x)
+		}
+	}
+	seenK := map[string]bool{}
+	r.known = nil
+	for _, x := range append(append([]string(nil), a.known...), b.known...) {
+		if !seenK[x] {
+			seenK[x] = true
+			r.known = append(r.known, x)
 		}
 	}
 	// defers: must agree (we only merge when they do)
